@@ -24,7 +24,6 @@ import (
 	"math"
 	"reflect"
 	"strings"
-	"sync"
 	"time"
 
 	"github.com/GoogleCloudPlatform/grpc-gcp-go/grpcgcp/grpc_gcp"
@@ -48,7 +47,6 @@ func newGCPPicker(readySCRefs []*subConnRef, gb *gcpBalancer) balancer.Picker {
 
 type gcpPicker struct {
 	gb     *gcpBalancer
-	mu     sync.Mutex
 	scRefs []*subConnRef
 	log    grpclog.LoggerV2
 }
@@ -179,8 +177,11 @@ func (p *gcpPicker) getAndIncrementSubConnRef(ctx context.Context, boundKey stri
 		return scRef, nil
 	}
 
-	p.mu.Lock()
-	defer p.mu.Unlock()
+	// One lock for all pickers of the pool: gRPC keeps using the previous picker for calls that
+	// loaded it before the new one was published, and choosing the least busy channel and counting
+	// the call there must be one step also between calls that go through different pickers.
+	p.gb.pickMu.Lock()
+	defer p.gb.pickMu.Unlock()
 	scRef, err := p.getSubConnRef(boundKey)
 	if err != nil {
 		return nil, err
@@ -193,7 +194,7 @@ func (p *gcpPicker) getAndIncrementSubConnRef(ctx context.Context, boundKey stri
 
 // getSubConnRef returns the subConnRef object that contains the subconn
 // ready to be used by picker.
-// Must be called holding the picker mutex lock.
+// Must be called holding the pick mutex lock of the balancer.
 func (p *gcpPicker) getSubConnRef(boundKey string) (*subConnRef, error) {
 	if boundKey != "" {
 		if ref, ok := p.gb.getReadySubConnRef(boundKey); ok {
@@ -204,7 +205,7 @@ func (p *gcpPicker) getSubConnRef(boundKey string) (*subConnRef, error) {
 	return p.getLeastBusySubConnRef()
 }
 
-// Must be called holding the picker mutex lock.
+// Must be called holding the pick mutex lock of the balancer.
 func (p *gcpPicker) getLeastBusySubConnRef() (*subConnRef, error) {
 	minScRef := p.scRefs[0]
 	minStreamsCnt := minScRef.getStreamsCnt()
